@@ -65,6 +65,8 @@ def run(chk, binary, count):
             continue
         for msg in direct(r):
             chk.violation(f"{r['kind']} generator, seed {r['seed']}: {msg}", {"seed": r["seed"], "ops": r["ops"], "replay": rep})
+        if r["kind"] != "osu":
+            chk.dist("rngs.csharp_seed_invariant=evaluated")
         if r["kind"] == "osu":
             ocases.append(f"({r['id']}%N, {z(r['seed'])}, [{'; '.join(oop(o) for o in r['ops'])}], {zlist(r['out'])})")
         else:
@@ -81,8 +83,19 @@ def run(chk, binary, count):
     n_o = len(bodies)
     bodies += [f"Definition cases := [\n  " + ";\n  ".join(s) + "].\nEval vm_compute in crng_bad cases."
                for s in shards(ccases, NCPU // 2)]
+    n_oc = len(bodies)
+    bodies += [f"Definition cases := [\n  " + ";\n  ".join(s) + "].\nEval vm_compute in crng_noinv cases."
+               for s in shards(ccases, NCPU // 2)]
     results = coq_eval(f"{chk.pid}-rngs", bodies, HEADER)
     for k, (o, e) in enumerate(results):
+        if k >= n_oc:
+            # hypothesis of C19_csharp_run_in_range on the seeds actually run (CRngProofs.cinvb_sound)
+            bad = None if e is not None else parse_eval_list(o)
+            if bad is None:
+                chk.broken_obligation("correspondence", "coqc failed on the seed invariant cases: " + str(e or o[-800:]))
+                continue
+            chk.dist("rngs.csharp_seed_invariant=fails", len(bad))
+            continue
         if e is not None:
             chk.broken_obligation("correspondence", "coqc failed on generator cases: " + e)
             continue
